@@ -35,15 +35,36 @@ SERVER_SETS = [
     [("h1", 11211), "/var/run/m1.sock", ("h3", 11212)],
     [("h1", 11211), ("h2", 11211), ("h3", 11212), "/tmp/m2.sock"],
     [("h1", 11211), "/var/run/m1.sock", ("h3", 11212), ("10.0.0.4", 11211), "/tmp/m2.sock"],
+    # the same kind of set given in the string spellings HashClient accepts
+    ["h1", "unix:/var/run/m1.sock", "[fd00::2]:11212", "h4:11299"],
 ]
+
+
+def canonical(s):
+    """(host, port) tuple or unix path a server spec stands for (independent of pymemcache)."""
+    if isinstance(s, tuple):
+        return s
+    if s.startswith("unix:"):
+        return s[5:]
+    if s.startswith("/"):
+        return s
+    if s.startswith("["):
+        host, _, rest = s[1:].partition("]")
+        return (host, int(rest[1:]) if rest.startswith(":") else 11211)
+    if ":" in s:
+        host, _, port = s.rpartition(":")
+        return (host, int(port))
+    return (s, 11211)
 UNIVERSE = ["k1", "k2", b"k3", b"k4", ("sk1", "p1"), ("sk2", b"p2"), "user:77", ("k2x", "p3")]
 
 
 def name_of(s):
+    s = canonical(s)
     return "%s:%s" % s if isinstance(s, tuple) else s
 
 
 def addr_of(s):
+    s = canonical(s)
     return ("tcp", s[0], s[1]) if isinstance(s, tuple) else ("unix", s)
 
 
@@ -72,10 +93,11 @@ class World:
         self.net = stacks.new_net(None, servers=())
         self.srv = {}
         for s in servers:
-            if isinstance(s, tuple):
-                self.srv[name_of(s)] = self.net.add_server(s[0], s[1])
+            c = canonical(s)
+            if isinstance(c, tuple):
+                self.srv[name_of(s)] = self.net.add_server(c[0], c[1])
             else:
-                self.srv[s] = self.net.add_server(s)
+                self.srv[name_of(s)] = self.net.add_server(c)
         self.prefix = prefix
         self.hc = HashClient(servers, socket_module=self.net.module(), key_prefix=prefix, use_pooling=pooling,
                              default_noreply=False, max_pool_size=2 if pooling else None)
@@ -146,6 +168,12 @@ def run_case(servers, keys, prefix, pooling):
         P.append(("get_many-result", f"get_many({keys}) after set_many returned {r!r}, expected {want!r} keyed by the caller's inner keys"))
     if keys:
         check_routing(w, "get_many", keys, P)
+    # the same keys handed over as a tuple (a 2-tuple of plain keys is NOT a (server_key, key) pair)
+    r = w.call("get_many", tuple(keys))
+    if r != ("ret", want):
+        P.append(("get_many-tuple", f"get_many(tuple {tuple(keys)!r}) returned {r!r}, the list form returns {want!r}"))
+    if keys:
+        check_routing(w, "get_many-tuple", keys, P)
     r = w.call("gets_many", keys)
     if r[0] != "ret" or {k: v[0] for k, v in r[1].items()} != want:
         P.append(("gets_many-result", f"gets_many({keys}) returned {r!r}"))
